@@ -12,8 +12,13 @@ import Relic.Proofs.Codec
 import Relic.Proofs.Xml
 import Relic.Proofs.XmlSort
 import Relic.Proofs.XmlPerm
+import Relic.Proofs.XmlEnv
+import Relic.Proofs.XmlPermFull
+import Relic.Proofs.XmlUnused
+import Relic.Proofs.XmlExcCtx
+import Relic.Proofs.XmlSens
 namespace Relic.Props.C19
-open Relic Relic.EcdsaPack Relic.Xml
+open Relic Relic.EcdsaPack Relic.Xml Relic.Xml.Sens
 
 /-! ## ECDSA `r ‖ s` (F17) -/
 
@@ -108,6 +113,87 @@ example : getDecl ⟨[], [98], [49]⟩ = none ∧ NamesNodup ([] ++ ⟨[], [98],
   refine ⟨by decide, ?_⟩
   simp [NamesNodup, sameName, sXmlns]
 
+/-- `<q:e xmlns="a" xmlns:="b"><k/></q:e>`: an attribute with prefix `xmlns` and *empty* local name (no XML parser
+    produces one) is a second declaration of the default namespace for `getDecl`, under a different attribute name -/
+def wEmptyKey (l : List Attr) : Node := .elem [113] [101] l [.elem [] [107] [] []]
+
+/-- **canon_invariant_under_attr_perm_full is false** as stated: distinct attribute *names* do not give distinct
+    declared *prefixes* when an attribute `xmlns:` with empty local name is allowed; the push-down order then decides
+    which value the child gets.  Hence the hypothesis `AttrsOK` (names distinct and local names non-empty). -/
+theorem canon_invariant_under_attr_perm_full_false : ¬ canon_invariant_under_attr_perm_full := by
+  intro h
+  have h1 := h [] [113] [101] [⟨[], sXmlns, [97]⟩, ⟨sXmlns, [], [98]⟩] [⟨sXmlns, [], [98]⟩, ⟨[], sXmlns, [97]⟩]
+    [.elem [] [107] [] []] (List.Perm.swap _ _ _) (by simp [NamesNodup, sameName, sXmlns])
+  rw [canon_eq_walkE, canon_eq_walkE] at h1
+  simp only [walkE, walkKidsE] at h1
+  exact absurd h1 (by decide)
+
+/-- **canon_invariant_under_attr_perm.**  Permuting the attribute list of *any set of elements* of the subtree
+    (`PermEq t t'`: same tree up to the order of the attributes of each element), under any ancestor context, does not
+    change the canonical form, provided that on every element attribute names are pairwise distinct and local names
+    non-empty (`AllOK`: what XML well-formedness gives) and no ancestor declares the prefix `xmlns` (`CtxOK`: forbidden
+    by Namespaces in XML; without it the statement still seems true but the proof would have to track the relative
+    position of that one pending declaration).  Two exchanged declarations are covered: the push-down order changes
+    the attribute order of descendants, which their own sort absorbs. -/
+theorem canon_invariant_under_attr_perm (ctx : List (List Attr)) (t t' : Node)
+    (hc : CtxOK ctx) (hp : PermEq t t') (hok : AllOK t) : canon ctx t = canon ctx t' := by
+  rw [canon_eq_walkE, canon_eq_walkE,
+    walkE_perm t t' _ _ (collectSpaces_ok ctx hc) (List.Perm.refl _) hp hok]
+
+/-- the apex form of the full statement, with its exact extra hypotheses -/
+theorem canon_invariant_under_attr_perm_apex (ctx : List (List Attr)) (sp tag : Bytes) (l l' : List Attr) (kids : List Node)
+    (hc : CtxOK ctx) (hp : l.Perm l') (hok : AllOK (.elem sp tag l kids)) :
+    canon ctx (.elem sp tag l kids) = canon ctx (.elem sp tag l' kids) := by
+  apply canon_invariant_under_attr_perm ctx _ _ hc _ hok
+  simp only [PermEq]
+  exact ⟨l', kids, rfl, hp, PermEqL_refl kids⟩
+
+/-- two declarations exchanged on an inner element, below an ancestor that declares a prefix -/
+example : CtxOK [[⟨sXmlns, [114], [119]⟩]] ∧
+    PermEq (.elem [] [97] [] [.elem [] [98] [⟨sXmlns, [112], [117]⟩, ⟨sXmlns, [113], [118]⟩] [.elem [112] [99] [⟨[113], [120], [49]⟩] []]])
+           (.elem [] [97] [] [.elem [] [98] [⟨sXmlns, [113], [118]⟩, ⟨sXmlns, [112], [117]⟩] [.elem [112] [99] [⟨[113], [120], [49]⟩] []]]) ∧
+    AllOK (.elem [] [97] [] [.elem [] [98] [⟨sXmlns, [112], [117]⟩, ⟨sXmlns, [113], [118]⟩] [.elem [112] [99] [⟨[113], [120], [49]⟩] []]]) := by
+  refine ⟨?_, ?_, ?_⟩
+  · intro attrs ha a haa
+    simp at ha; subst ha; simp at haa; subst haa; decide
+  · simp only [PermEq, PermEqL]
+    refine ⟨_, _, rfl, List.Perm.refl _, _, _, rfl, ⟨_, _, rfl, List.Perm.swap _ _ _, ?_⟩, rfl⟩
+    exact ⟨_, _, rfl, ⟨_, _, rfl, List.Perm.refl _, rfl⟩, rfl⟩
+  · simp [AllOK, AllOKL, AttrsOK, NamesNodup, sameName, sXmlns]
+
+/-- **canon_ignores_unused_ns_decl.**  Adding, at any position of the attribute list of any element of the subtree, a
+    namespace declaration `mkDecl s v` (`xmlns="v"` for `s = ""`, `xmlns:s="v"` otherwise) whose prefix is used
+    (`usesSpace`, the notion the code implements: the element's own prefix, or the prefix of one of its attributes)
+    by no element of that element's subtree does not change the canonical form (`AddDecl s v t t'`), provided no
+    ancestor of the apex declares the prefix `xmlns` (`CtxOK`; needed: see `canon_unused_decl_needs_ctxok`).
+    No distinctness hypothesis on attribute names is needed. -/
+theorem canon_ignores_unused_ns_decl (ctx : List (List Attr)) (s v : Bytes) (t t' : Node)
+    (hc : CtxOK ctx) (h : AddDecl s v t t') : canon ctx t' = canon ctx t := by
+  rw [canon_eq_walkE, canon_eq_walkE]
+  rw [walkE_add_decl s v t t' _ (collectSpaces_ok ctx hc).2 h]
+
+/-- `<a><p:b/></a>` ↦ `<a xmlns:q="v"><p:b/></a>` -/
+example : AddDecl [113] [118] (.elem [] [97] [] [.elem [112] [98] [] []]) (.elem [] [97] [⟨sXmlns, [113], [118]⟩] [.elem [112] [98] [] []]) := by
+  simp only [AddDecl]
+  left
+  refine ⟨[], [], rfl, rfl, by decide, ?_⟩
+  simp only [UnusedInL, UnusedIn]
+  exact ⟨⟨by decide, trivial⟩, trivial⟩
+
+/-- without `CtxOK`: below an ancestor declaring the prefix `xmlns`, an added unused `xmlns:q="v"` *is* an attribute
+    of prefix `xmlns`, so `usesSpace` pulls the ancestor's `xmlns:xmlns` onto the element -/
+theorem canon_unused_decl_needs_ctxok :
+    AddDecl [113] [118] (.elem [] [101] [] []) (.elem [] [101] [⟨sXmlns, [113], [118]⟩] []) ∧
+    canon [[⟨sXmlns, sXmlns, [97]⟩]] (.elem [] [101] [⟨sXmlns, [113], [118]⟩] []) ≠
+      canon [[⟨sXmlns, sXmlns, [97]⟩]] (.elem [] [101] [] []) := by
+  constructor
+  · simp only [AddDecl]
+    left
+    exact ⟨[], [], rfl, rfl, by decide, by simp [UnusedInL]⟩
+  · rw [canon_eq_walkE, canon_eq_walkE]
+    simp only [walkE, walkKidsE]
+    decide
+
 /-- **canon_sensitive (escaping).** Canonical text and attribute-value escaping are injective: two different character
     data strings / attribute values never get the same canonical spelling. -/
 theorem escText_injective (a b : Bytes) (h : escText a = escText b) : a = b :=
@@ -117,6 +203,35 @@ theorem escAttr_injective (a b : Bytes) (h : escAttr a = escAttr b) : a = b :=
   (escAttr_append_inj a b [] [] (by simpa using h) rfl).1
 
 example : escText [0x26] ≠ escText [0x26, 0x61, 0x6d, 0x70, 0x3b] := by decide
+
+/-- **canon_sensitive (single edits).**  Replacing the data of one character-data node anywhere in the subtree
+    (`TextEdit d d' t t'`) changes the canonical form, for every ancestor context. -/
+theorem canon_sensitive_text (ctx : List (List Attr)) (d d' : Bytes) (t t' : Node)
+    (hd : d ≠ d') (h : TextEdit d d' t t') : canon ctx t ≠ canon ctx t' :=
+  canon_text_sensitive ctx d d' t t' hd h
+
+/-- replacing the value of one attribute that is not a namespace declaration, on any element of the subtree -/
+theorem canon_sensitive_attr_value (ctx : List (List Attr)) (s k v v' : Bytes) (t t' : Node)
+    (hnd : getDecl ⟨s, k, v⟩ = none) (hv : v ≠ v') (h : AttrEdit s k v v' t t') : canon ctx t ≠ canon ctx t' :=
+  canon_attrval_sensitive ctx s k v v' t t' hnd hv h
+
+/-- replacing the local name of one element of the subtree -/
+theorem canon_sensitive_local_name (ctx : List (List Attr)) (g g' : Bytes) (t t' : Node)
+    (hg : g ≠ g') (h : TagEdit g g' t t') : canon ctx t ≠ canon ctx t' :=
+  canon_tag_sensitive ctx g g' t t' hg h
+
+/-- exchanging two neighbouring child elements (of any element of the subtree) whose qualified names differ and
+    contain neither a space nor `>`.  (The general form, "whose canonical forms differ", is `canon_swap_sensitive_of`
+    with the hypothesis that the two serialisations do not commute as words; deriving that from mere inequality needs
+    the unambiguity of the serialisation and is not proved.) -/
+theorem canon_sensitive_child_swap (ctx : List (List Attr)) (sp1 g1 sp2 g2 : Bytes) (t t' : Node)
+    (hne : fullName sp1 g1 ≠ fullName sp2 g2) (h1 : NoDelim (fullName sp1 g1)) (h2 : NoDelim (fullName sp2 g2))
+    (h : SwapEdit (NamedPair sp1 g1 sp2 g2) t t') : canon ctx t ≠ canon ctx t' :=
+  canon_swap_sensitive ctx sp1 g1 sp2 g2 t t' hne h1 h2 h
+
+example : TextEdit [0x61] [0x62] (.elem [] [0x72] [] [.comment [], .elem [] [0x65] [] [.text [0x61] false]])
+    (.elem [] [0x72] [] [.comment [], .elem [] [0x65] [] [.text [0x62] false]]) := by
+  simp [TextEdit, TextEditL]
 
 /-- full statement of sensitivity: the canonical form determines the tree up to the erased information -/
 def canon_sensitive_full : Prop :=
@@ -179,11 +294,111 @@ theorem canon_eq_excc14n_full_false : ¬ canon_eq_excc14n_full :=
 example : ExcC14N.devs [] wAttrOrder = ["attr-order"] ∧ ExcC14N.devs [] wPi = ["pi"] ∧
     ExcC14N.devs [] wRedundant = ["redundant-decl"] ∧ ExcC14N.devs [] wEmptyDefault = ["empty-default"] := by decide
 
-/-- agreement on the class `Agree` (no deviation trigger present): tested on every generated document by the
-    correspondence run, not proved -/
-def canon_eq_excc14n_on_agree : Prop :=
+/-- agreement on the class `Agree` (no deviation trigger present), as first stated: **false** (see below) -/
+def canon_eq_excc14n_on_agree_full : Prop :=
   ∀ (ctx : List (List Attr)) (sp tag : Bytes) (attrs : List Attr) (kids : List Node),
     ExcC14N.agree ctx (.elem sp tag attrs kids) = true →
     canon ctx (.elem sp tag attrs kids) = ExcC14N.excC14N ctx (.elem sp tag attrs kids)
+
+/-- `<a xmlns:xml="http://www.w3.org/XML/1998/namespace" xml:lang="e"/>`: a legal document (Namespaces in XML allows
+    declaring the prefix `xml` with its fixed URI) -/
+def wXmlDecl : Node := .elem [] [97] [⟨sXmlns, ExcC14N.sXml, ExcC14N.xmlUri⟩, ⟨ExcC14N.sXml, [108, 97, 110, 103], [101]⟩] []
+/-- `<p:a xmlns:p=""><p:b xmlns:p=""/></p:a>` (not namespace-well-formed in XML 1.0) -/
+def wEmptyPrefix : Node := .elem [112] [97] [⟨sXmlns, [112], []⟩] [.elem [112] [98] [⟨sXmlns, [112], []⟩] []]
+/-- `<p:a/>` -/
+def wPA : Node := .elem [112] [97] [] []
+
+/-- **new deviation (not among the F16 triggers of `devs`)**: an explicit declaration of the prefix `xml` that is
+    visibly utilised (`xml:lang`) is emitted by relic; Canonical XML never emits it. -/
+theorem canon_ne_excc14n_xml_decl : ExcC14N.agree [] wXmlDecl = true ∧ canon [] wXmlDecl ≠ ExcC14N.excC14N [] wXmlDecl := by
+  refine ⟨by decide, ?_⟩
+  rw [canon_eq_walkE]
+  simp only [wXmlDecl, walkE, walkKidsE]
+  decide
+
+/-- a prefix "undeclaration" `xmlns:p=""` repeated below an output ancestor that rendered it: kept by relic, omitted by
+    the standard; the trigger `redundant-decl` looks at non-empty values only -/
+theorem canon_ne_excc14n_empty_prefix_decl :
+    ExcC14N.agree [] wEmptyPrefix = true ∧ canon [] wEmptyPrefix ≠ ExcC14N.excC14N [] wEmptyPrefix := by
+  refine ⟨by decide, ?_⟩
+  rw [canon_eq_walkE]
+  simp only [wEmptyPrefix, walkE, walkKidsE]
+  decide
+
+/-- an ancestor with `xmlns:p=""` nearer than `xmlns:p="u"`: `pullDown` skips the empty value -/
+theorem canon_ne_excc14n_ctx_empty_prefix_decl :
+    ExcC14N.agree [[⟨sXmlns, [112], []⟩], [⟨sXmlns, [112], [117]⟩]] wPA = true ∧
+    canon [[⟨sXmlns, [112], []⟩], [⟨sXmlns, [112], [117]⟩]] wPA ≠ ExcC14N.excC14N [[⟨sXmlns, [112], []⟩], [⟨sXmlns, [112], [117]⟩]] wPA := by
+  refine ⟨by decide, ?_⟩
+  rw [canon_eq_walkE]
+  simp only [wPA, walkE, walkKidsE]
+  decide
+
+/-- an ancestor carrying the same declaration twice (not well-formed): `pullDown` takes the first, the standard the last -/
+theorem canon_ne_excc14n_ctx_dup_decl :
+    ExcC14N.agree [[⟨sXmlns, [112], [117]⟩, ⟨sXmlns, [112], [118]⟩]] wPA = true ∧
+    canon [[⟨sXmlns, [112], [117]⟩, ⟨sXmlns, [112], [118]⟩]] wPA ≠ ExcC14N.excC14N [[⟨sXmlns, [112], [117]⟩, ⟨sXmlns, [112], [118]⟩]] wPA := by
+  refine ⟨by decide, ?_⟩
+  rw [canon_eq_walkE]
+  simp only [wPA, walkE, walkKidsE]
+  decide
+
+/-- **canon_eq_excc14n_on_agree_full is false**: the classifier's class is too large by the `xml` declaration -/
+theorem canon_eq_excc14n_on_agree_full_false : ¬ canon_eq_excc14n_on_agree_full :=
+  fun h => canon_ne_excc14n_xml_decl.2 (h [] _ _ _ _ canon_ne_excc14n_xml_decl.1)
+
+/-- **canon_eq_excc14n_on_agree.**  On every tree for which the classifier `devs` reports no deviation trigger, relic's
+    canonical form *is* the Exclusive C14N (without comments) of the subtree, for every ancestor context, provided the
+    document is namespace-well-formed in the following decidable sense, on every element of the subtree (`WF`) and on
+    every ancestor of the apex (`CtxWF`):
+    * `AttrsOK`: attribute names pairwise distinct, local names non-empty (XML well-formedness;
+      witness for the context: `canon_ne_excc14n_ctx_dup_decl`);
+    * `DeclsOK`: no namespace declaration has an empty value (`xmlns=""` is the listed trigger `empty-default`;
+      `xmlns:p=""` is forbidden by Namespaces in XML 1.0; witnesses `canon_ne_excc14n_empty_prefix_decl`,
+      `canon_ne_excc14n_ctx_empty_prefix_decl`), and the prefix `xml` is not declared (legal XML, hence a genuine
+      further deviation of relic: `canon_ne_excc14n_xml_decl`). -/
+theorem canon_eq_excc14n_on_agree (ctx : List (List Attr)) (sp tag : Bytes) (attrs : List Attr) (kids : List Node)
+    (hctx : CtxWF ctx) (hwf : WF (.elem sp tag attrs kids)) (hag : ExcC14N.agree ctx (.elem sp tag attrs kids) = true) :
+    canon ctx (.elem sp tag attrs kids) = ExcC14N.excC14N ctx (.elem sp tag attrs kids) :=
+  canon_eq_excC14N_agree ctx sp tag attrs kids hctx hwf hag
+
+/-- `<a xmlns:p="u" xmlns="d" z="0"><p:b p:x="1" y="2">t</p:b><!--c--></a>` below an ancestor declaring `xmlns:q="w"`:
+    push-down of `xmlns:p`, pulled-down and dropped `xmlns:q`, prefixed and plain attributes, a comment -/
+example : CtxWF [[⟨sXmlns, [113], [119]⟩]] ∧
+    WF (.elem [] [97] [⟨sXmlns, [112], [117]⟩, ⟨[], sXmlns, [100]⟩, ⟨[], [122], [48]⟩]
+      [.elem [112] [98] [⟨[112], [120], [49]⟩, ⟨[], [121], [50]⟩] [.text [116] false], .comment [99]]) ∧
+    ExcC14N.agree [[⟨sXmlns, [113], [119]⟩]] (.elem [] [97] [⟨sXmlns, [112], [117]⟩, ⟨[], sXmlns, [100]⟩, ⟨[], [122], [48]⟩]
+      [.elem [112] [98] [⟨[112], [120], [49]⟩, ⟨[], [121], [50]⟩] [.text [116] false], .comment [99]]) = true := by
+  refine ⟨?_, ?_, by decide⟩
+  · intro l hl
+    have : l = [⟨sXmlns, [113], [119]⟩] := by simpa using hl
+    subst this
+    refine ⟨⟨by simp [NamesNodup], by simp⟩, ?_⟩
+    intro a ha p hg
+    have : a = ⟨sXmlns, [113], [119]⟩ := by simpa using ha
+    subst this
+    have : p = [113] := by
+      have h2 : getDecl ⟨sXmlns, [113], [119]⟩ = some [113] := by decide
+      rw [h2] at hg; exact (Option.some.inj hg).symm
+    subst this
+    exact ⟨by decide, by decide⟩
+  · simp only [WF, WFL, and_true]
+    refine ⟨⟨by simp [NamesNodup, sameName, sXmlns], by simp [sXmlns]⟩, ?_, ⟨by simp [NamesNodup, sameName], by simp⟩, ?_⟩
+    · intro a ha p hg
+      simp only [List.mem_cons, List.not_mem_nil, or_false] at ha
+      rcases ha with rfl | rfl | rfl
+      · have h2 : getDecl ⟨sXmlns, [112], [117]⟩ = some [112] := by decide
+        rw [h2] at hg; rw [← Option.some.inj hg]; exact ⟨by decide, by decide⟩
+      · have h2 : getDecl ⟨[], sXmlns, [100]⟩ = some [] := by decide
+        rw [h2] at hg; rw [← Option.some.inj hg]; exact ⟨by decide, by decide⟩
+      · have h2 : getDecl ⟨[], [122], [48]⟩ = none := by decide
+        rw [h2] at hg; cases hg
+    · intro a ha p hg
+      simp only [List.mem_cons, List.not_mem_nil, or_false] at ha
+      rcases ha with rfl | rfl
+      · have h2 : getDecl ⟨[112], [120], [49]⟩ = none := by decide
+        rw [h2] at hg; cases hg
+      · have h2 : getDecl ⟨[], [121], [50]⟩ = none := by decide
+        rw [h2] at hg; cases hg
 
 end Relic.Props.C19
